@@ -53,34 +53,70 @@ type Holder struct {
 }
 `
 
+const c04SrcU2 = `package u
+
+import "zzmod/d"
+
+var second d.T // U2-VAR
+
+func Again() {
+	d.F() // U2-CALL
+}
+`
+
+// a user package whose declared name (other) differs from the last element of its path (zzmod/usr/v2)
+const c04SrcV2 = `package other
+
+import "zzmod/d"
+
+func Use(t *d.T) { // V2-PARAM
+	d.F() // V2-CALL
+	t.M() // V2-MCALL
+}
+`
+
 // ZZC04Cross: references from package u (path zzmod/u, name u) to @packageonly items of d; allow-list shapes symbolic
 // (bare, by name, by path, several entries with trailing comma, second annotation line, not listed, absent).
 func ZZC04Cross() {
-	annT := nd.EnumPad("annT", " @packageonly", " @packageonly u", " @packageonly zzmod/u", " @packageonly w, zzmod/u ,", " @packageonly w,x", " plain")
+	annT := nd.EnumPad("annT", " @packageonly", " @packageonly u", " @packageonly zzmod/u", " @packageonly w, zzmod/u ,", " @packageonly w,x", " @packageonly other", " @packageonly v2", " plain")
 	annT2 := nd.EnumPad("annT2", " @packageonly u", " @packageonly y", " plain")
-	annF := nd.EnumPad("annF", " @packageonly", " @packageonly u", " @packageonly zzmod/u", " @packageonly uu", " plain")
-	annM := nd.EnumPad("annM", " @packageonly", " @packageonly x, u", " @packageonly zzmod", " plain")
+	annF := nd.EnumPad("annF", " @packageonly", " @packageonly u", " @packageonly zzmod/u", " @packageonly uu", " @packageonly v2, other", " @packageonly zzmod/usr/v2", " plain")
+	annM := nd.EnumPad("annM", " @packageonly", " @packageonly x, u", " @packageonly zzmod", " @packageonly v2", " plain")
 	holes := []nd.Hole{{"annT", annT}, {"annT2", annT2}, {"annF", annF}, {"annM", annM}}
-	files := []nd.File{{Pkg: "zzmod/d", Name: "d.go", Src: c04SrcD}, {Pkg: "zzmod/u", Name: "u.go", Src: c04SrcU}}
+	files := []nd.File{{Pkg: "zzmod/d", Name: "d.go", Src: c04SrcD}, {Pkg: "zzmod/u", Name: "u.go", Src: c04SrcU}, {Pkg: "zzmod/u", Name: "u2.go", Src: c04SrcU2}, {Pkg: "zzmod/usr/v2", Name: "v.go", Src: c04SrcV2}}
 	prog := nd.LoadProgram(files, holes)
 	cfg := config.Default()
 	rd := Analyze(prog, cfg, "zzmod/d", Facts{}, "pkgo")
 	ru := Analyze(prog, cfg, "zzmod/u", Facts{"zzmod/d": &rd.Ann}, "pkgo")
+	rv := Analyze(prog, cfg, "zzmod/usr/v2", Facts{"zzmod/d": &rd.Ann}, "pkgo")
 
 	// the declaring package is always allowed
 	CheckExact(rd.Diags, []Expect{}, "C04 declaring package")
 
 	annotT := nd.Or(nd.HasPrefix(annT, " @packageonly"), nd.HasPrefix(annT2, " @packageonly"))
-	allowT := nd.Or(nd.HasPrefix(annT, " @packageonly u "), nd.HasPrefix(annT, " @packageonly zzmod/u"), nd.HasPrefix(annT, " @packageonly w, zzmod/u"), nd.HasPrefix(annT2, " @packageonly u"))
+	allowT := nd.Or(nd.HasPrefix(annT, " @packageonly u "), nd.HasPrefix(annT, " @packageonly zzmod/u "), nd.HasPrefix(annT, " @packageonly w, zzmod/u ,"), nd.HasPrefix(annT2, " @packageonly u"))
 	annotF := nd.HasPrefix(annF, " @packageonly")
-	allowF := nd.Or(nd.HasPrefix(annF, " @packageonly u "), nd.HasPrefix(annF, " @packageonly zzmod/u"))
+	allowF := nd.Or(nd.HasPrefix(annF, " @packageonly u "), nd.HasPrefix(annF, " @packageonly zzmod/u "))
 	annotM := nd.HasPrefix(annM, " @packageonly")
 	allowM := nd.HasPrefix(annM, " @packageonly x, u")
 	fu := "/zz/zzmod/u/u.go"
 	src := c04SrcU
 	badF := nd.And(annotF, nd.Not(allowF))
 	badM := nd.And(annotM, nd.Not(allowM))
+	// package "other" at path zzmod/usr/v2: allowed by its NAME (other) or its PATH, not by the directory name v2
+	fv := "/zz/zzmod/usr/v2/v.go"
+	allowTv := nd.HasPrefix(annT, " @packageonly other")
+	allowFv := nd.Or(nd.HasPrefix(annF, " @packageonly v2, other"), nd.HasPrefix(annF, " @packageonly zzmod/usr/v2"))
+	CheckExact(rv.Diags, []Expect{
+		{fv, nd.LineOf(c04SrcV2, "V2-PARAM"), "PKGO01", nd.And(annotT, nd.Not(allowTv))},
+		{fv, nd.LineOf(c04SrcV2, "V2-CALL"), "PKGO02", nd.And(annotF, nd.Not(allowFv))},
+		{fv, nd.LineOf(c04SrcV2, "V2-MCALL"), "PKGO03", annotM}, // no spelling of annM allows package other
+	}, "C04 user package whose name differs from its directory")
+	fu2 := "/zz/zzmod/u/u2.go"
 	CheckExact(ru.Diags, []Expect{
+		// once per FILE and type: the second file of the package gets its own PKGO01
+		{fu2, nd.LineOf(c04SrcU2, "U2-VAR"), "PKGO01", nd.And(annotT, nd.Not(allowT))},
+		{fu2, nd.LineOf(c04SrcU2, "U2-CALL"), "PKGO02", nd.And(annotF, nd.Not(allowF))},
 		{fu, nd.LineOf(src, "U-PARAM"), "PKGO01", nd.And(annotT, nd.Not(allowT))}, // first use of d.T in the file
 		{fu, nd.LineOf(src, "U-CALL"), "PKGO02", badF},
 		{fu, nd.LineOf(src, "U-CALL2"), "PKGO02", badF},
